@@ -14,7 +14,7 @@ SPEC = {
     "lean_files": ["PdModel/Model/IdAlloc.lean", "PdModel/Lemmas/IdAlloc.lean", "PdModel/Props/C04.lean",
                    "PdModel/Spec/C04.lean", "PdModel/Driver/IdAlloc.lean"],
     "gen": {
-        "quick": {"args": ["-n", "100", "-len", "60"], "streams": 4},
+        "quick": {"args": ["-n", "75", "-len", "60"], "streams": 4},
         "thorough": {"args": ["-n", "500", "-len", "90"], "streams": 16},
     },
     "search": {"args": ["-n", "400", "-len", "80"], "streams": 8},
